@@ -603,6 +603,9 @@ func (w *PostgresStoreWorker) performCommands(tx *sql.Tx, transactions []*t_aio.
 		util.Assert(len(transaction.Commands) > 0, "expected a command")
 		results[i] = make([]*t_aio.Result, len(transaction.Commands))
 
+		// promises this transaction tried to complete but found already completed
+		notUpdated := map[string]bool{}
+
 		for j, command := range transaction.Commands {
 			var err error
 
@@ -639,6 +642,9 @@ func (w *PostgresStoreWorker) performCommands(tx *sql.Tx, transactions []*t_aio.
 
 				util.Assert(command.UpdatePromise != nil, "command must not be nil")
 				results[i][j], err = w.updatePromise(tx, promiseUpdateStmt, command.UpdatePromise)
+				if err == nil && results[i][j].UpdatePromise.RowsAffected == 0 {
+					notUpdated[command.UpdatePromise.Id] = true
+				}
 
 			// Callbacks
 			case t_aio.CreateCallback:
@@ -810,6 +816,15 @@ func (w *PostgresStoreWorker) performCommands(tx *sql.Tx, transactions []*t_aio.
 				}
 
 				util.Assert(command.CompleteTasks != nil, "command must not be nil")
+				if notUpdated[command.CompleteTasks.RootPromiseId] {
+					// the promise was completed by someone else, whose transaction already
+					// completed its tasks; tasks created since then must not be touched
+					results[i][j] = &t_aio.Result{
+						Kind:          t_aio.CompleteTasks,
+						CompleteTasks: &t_aio.AlterTasksResult{RowsAffected: 0},
+					}
+					continue
+				}
 				results[i][j], err = w.completeTasks(tx, tasksCompleteStmt, command.CompleteTasks)
 			case t_aio.HeartbeatTasks:
 				if taskHeartbeatStmt == nil {
